@@ -332,37 +332,75 @@ theorem cbtf_save_not_keyed :
 
 /-! ### empty q-set -/
 
-/-- `cbtf` with an empty q-set: `frc = (m[bb] + (1/(iΩ)) b[bb] + (-1/Ω²) k[bb]) a`, the
-`cbtfEmptyAM` of `Model/NT.lean` on the `np.ix_(bset, bset)` blocks -/
-theorem cbtfE_force_eq_am_times_accel :
-    (cbtfColE M B Kk bpos sc a).frc
-      = (cbtfEmptyAM (blk M bpos bpos) (blk B bpos bpos) (blk Kk bpos bpos) (sc.s * sc.c2) sc.c2).mulVec a := by
-  funext l
-  simp only [cbtfColE, fsum_eq_sum, look_tab, cbtfEmptyAM, accImp, Matrix.mulVec, dotProduct,
-    Matrix.add_apply, Matrix.smul_apply, blk, Matrix.of_apply, smul_eq_mul]
-  rw [← Finset.sum_add_distrib, ← Finset.sum_add_distrib]
-  exact Finset.sum_congr rfl fun _ _ => by ring
-
-/-- the two branches of the routine agree on `frc` when the q-set is empty; the returned `a d v` of
-the empty-q-set branch are those of the general branch read in b-set order -/
+/-- ★ `cbtfE_vs_general` (after the fix F59): with an empty q-set the dedicated branch of the routine
+IS the general branch — the same `frc`, and the same `a d v` in MODEL order — so `cbtf_outputs_def`,
+`cbtf_eom`, `cbtf_accel_eq` hold uniformly for `nq ≥ 0` (`cbtfE_outputs_def`). -/
 theorem cbtfE_vs_general (qpos0 : Fin 0 → Fin n) (loc0 : Fin n → Fin r ⊕ Fin 0)
     (solve0 : QSolver K 0) (hp : IsPartition bpos qpos0 loc0) :
     let o := cbtfCol M B Kk bpos qpos0 loc0 solve0 sc a
-    let e := cbtfColE M B Kk bpos sc a
-    e.frc = o.frc ∧ (∀ l, e.a l = o.a (bpos l)) ∧ (∀ l, e.d l = o.d (bpos l))
-      ∧ (∀ l, e.v l = o.v (bpos l)) := by
+    let e := cbtfColE M B Kk bpos loc0 sc a
+    e.frc = o.frc ∧ e.a = o.a ∧ e.d = o.d ∧ e.v = o.v := by
   intro o e
-  have hab := cbtfCol_a_bpos M B Kk bpos qpos0 loc0 solve0 sc a hp
-  have hdb := cbtfCol_d_bpos M B Kk bpos qpos0 loc0 solve0 sc a hp
-  have hv := cbtfCol_v M B Kk bpos qpos0 loc0 solve0 sc a
-  refine ⟨?_, fun l => (hab l).symm, fun l => ?_, fun l => ?_⟩
-  · funext l
-    rw [cbtfCol_frc, hp.sum_split, hp.sum_split (fun j => B (bpos l) j * _)]
-    simp only [hab, hdb, hv, Finset.univ_eq_empty, Finset.sum_empty, add_zero]
+  have ha : e.a = o.a := by
+    funext i
+    simp only [e, o, cbtfColE, cbtfCol, look_tab]
+    rcases loc0 i with l | k
+    · rfl
+    · exact k.elim0
+  have hd : e.d = o.d := by
+    funext i
+    simp only [e, o, cbtfColE, cbtfCol, look_tab]
+    rcases loc0 i with l | k
+    · rfl
+    · exact k.elim0
+  have hv : e.v = o.v := by
+    funext i
+    have h1 : e.v i = sc.s * e.d i := by simp [e, cbtfColE, look_tab]
+    rw [h1, hd, ← cbtfCol_v]
+  refine ⟨?_, ha, hd, hv⟩
+  funext l
+  have he : e.frc l = ∑ j, M (bpos l) j * e.a j + ∑ j, B (bpos l) j * e.v j
+      + ∑ j, Kk (bpos l) j * e.d j := by
     simp [e, cbtfColE, fsum_eq_sum, look_tab]
-  · rw [hdb]; simp [e, cbtfColE, look_tab]
-  · rw [hv, hdb]; simp [e, cbtfColE, look_tab]
+  rw [he, ha, hd, hv, cbtfCol_frc, hp.sum_split (fun j => Kk (bpos l) j * _)]
+  simp
+  rfl
 
+/-- ★ the statement of `cbtf_outputs_def` for the empty-q-set branch: b-set accelerations are the
+enforced ones IN MODEL ORDER (`o.a (bset[l]) = a[l]` — the regression rule of finding F59), `v = iΩ d`,
+and `m a + b v + k d = frc` on row `bset[l]` (every row is one). -/
+theorem cbtfE_outputs_def (qpos0 : Fin 0 → Fin n) (loc0 : Fin n → Fin r ⊕ Fin 0)
+    (hp : IsPartition bpos qpos0 loc0) (hsc : sc.s * sc.c2 = -sc.c1) :
+    let e := cbtfColE M B Kk bpos loc0 sc a
+    (∀ l, e.a (bpos l) = a l) ∧ (∀ l, e.d (bpos l) = sc.c2 * a l) ∧ (∀ i, e.v i = sc.s * e.d i) ∧
+    (∀ l, ((Matrix.of M).mulVec e.a + (Matrix.of B).mulVec e.v + (kcb Kk loc0).mulVec e.d) (bpos l)
+      = e.frc l) := by
+  intro e
+  have hsol : SolvesQ M B Kk qpos0 (fun _ f => f) sc := fun f => by
+    funext k; exact k.elim0
+  obtain ⟨h1, h2, h3, h4⟩ := cbtfE_vs_general M B Kk bpos sc a qpos0 loc0 (fun _ f => f) hp
+  have h := cbtf_outputs_def M B Kk bpos qpos0 loc0 (fun _ f => f) sc a hp hsc hsol
+  simp only at h
+  rw [← h1, ← h2, ← h3, ← h4] at h
+  refine ⟨h.1, h.2.1, h.2.2.1, fun l => ?_⟩
+  have := h.2.2.2.2 (bpos l)
+  rw [hp.loc_bpos] at this
+  exact this
+
+/-- `cbtf` with an empty q-set: `frc = (m[bb] + (1/(iΩ)) b[bb] + (-1/Ω²) k[bb]) a`, the
+`cbtfEmptyAM` of `Model/NT.lean` on the `np.ix_(bset, bset)` blocks -/
+theorem cbtfE_force_eq_am_times_accel (qpos0 : Fin 0 → Fin n) (loc0 : Fin n → Fin r ⊕ Fin 0)
+    (hp : IsPartition bpos qpos0 loc0) :
+    (cbtfColE M B Kk bpos loc0 sc a).frc
+      = (cbtfEmptyAM (blk M bpos bpos) (blk B bpos bpos) (blk Kk bpos bpos) (sc.s * sc.c2) sc.c2).mulVec a := by
+  rw [(cbtfE_vs_general M B Kk bpos sc a qpos0 loc0 (fun _ f => f) hp).1,
+    cbtf_frc_blocks M B Kk bpos qpos0 loc0 (fun _ f => f) sc a hp]
+  funext l
+  simp only [cbtfEmptyAM, accImp, Matrix.mulVec, dotProduct, Pi.add_apply, Matrix.add_apply,
+    Matrix.smul_apply, blk, Matrix.of_apply, smul_eq_mul, Pi.smul_apply, Finset.univ_eq_empty,
+    Finset.sum_empty, add_zero]
+  rw [← Finset.sum_add_distrib, ← Finset.sum_add_distrib]
+  exact Finset.sum_congr rfl fun _ _ => by ring
 
 /-! ### non-vacuity: the hypotheses of the `cbtf` theorems are inhabited -/
 
@@ -451,6 +489,32 @@ theorem bset_isPartition (n r nq : Nat) [NeZero n] [NeZero r] [NeZero nq] (bset 
         posOf_of_getElem? hqnd hget]
       simp only [Option.getD_some, ofNat_fin]
 
+
+/-- the same for a partition vector that covers EVERY DOF (empty q-set): `posFn`, `locFnE` -/
+theorem bset_isPartition_E (n r : Nat) [NeZero n] [NeZero r] (bset : List Nat)
+    (hnd : bset.Nodup) (hlt : ∀ i ∈ bset, i < n) (hr : bset.length = r) (hq : flippv bset n = []) :
+    IsPartition (posFn n bset r) (fun k : Fin 0 => k.elim0) (locFnE (n := n) bset r) := by
+  constructor
+  · intro i
+    have hmem : i.1 ∈ bset := by
+      by_contra h
+      have : i.1 ∈ flippv bset n := (mem_flippv _ _ _).2 ⟨i.2, h⟩
+      rw [hq] at this
+      exact List.not_mem_nil this
+    obtain ⟨k, hk⟩ := List.mem_iff_getElem?.1 hmem
+    have hk' := posOf_of_getElem? hnd hk
+    have hklt : k < r := by
+      rw [← hr]; exact (List.getElem?_eq_some_iff.1 hk).1
+    simp only [locFnE, hk', Option.getD_some, Sum.elim_inl, posFn]
+    rw [ofNat_val hklt, List.getD_eq_getElem?_getD, hk, Option.getD_some, ofNat_fin]
+  · rintro (l | k)
+    · have hl : l.1 < bset.length := by rw [hr]; exact l.2
+      have hget : bset[l.1]? = some bset[l.1] := List.getElem?_eq_getElem hl
+      have hv : bset[l.1] < n := hlt _ (List.getElem_mem hl)
+      simp only [Sum.elim_inl, locFnE, posFn]
+      rw [List.getD_eq_getElem?_getD, hget, Option.getD_some, ofNat_val hv, posOf_of_getElem? hnd hget]
+      simp only [Option.getD_some, ofNat_fin]
+    · exact k.elim0
 
 /-- `bset = [3, 1]` in a 5-DOF model: `qset = [0, 2, 4]` -/
 example : flippv [3, 1] 5 = [0, 2, 4] := by decide
